@@ -14,6 +14,19 @@ pub fn exec(op: &str, a: &Value) -> Option<Value> {
         "PlainDate.toPlainDateTime" => run(|| arg_date(&a["recv"])?.to_plain_date_time(Some(arg_time(&a["time"])?)), p_datetime),
         // the receiver is the date at noon (valid on every day of the range); its time is then replaced
         "PlainDateTime.withTime" => run(|| { let d = arg_date(&a["recv"])?; PlainDateTime::try_new(d.iso_year(), d.iso_month(), d.iso_day(), 12, 0, 0, 0, 0, 0, iso())?.with_time(arg_time(&a["time"])?) }, p_datetime),
+        // numeric primitives: a double is the exact integer `v` plus (frac) one half away from zero, or a non-number
+        "Prim.epochNs" => run(|| { use temporal_rs::time::EpochNanoseconds as E; let v = num(&a["v"]);
+            let f = || -> f64 { match js::s(a, "special") { "" => { let x = v as f64; assert!(x as i128 == v, "HARNESS: not a double: {}", v);
+                if a["frac"].as_bool().unwrap() { assert!(v.abs() < (1i128 << 51)); x + if v < 0 { -0.5 } else { 0.5 } } else { x } }, sp => crate::ops_wrap::special(sp) } };
+            match js::s(a, "src") { "i128" => E::try_from(v), "u128" => E::try_from(if js::s(a, "special") == "max" { u128::MAX } else { u128::try_from(v).expect("HARNESS: u128") }), "f64" => E::try_from(f()), k => panic!("HARNESS: src {k}") } },
+            |e| big(e.as_i128())),
+        "Prim.truncated" | "Prim.integral" | "Prim.positive" => run(|| { use temporal_rs::primitive::FiniteF64 as F; let v = num(&a["v"]);
+            let x = v as f64; assert!(x as i128 == v, "HARNESS: not a double: {}", v);
+            let x = if a["frac"].as_bool().unwrap() { x + if v < 0 { -0.5 } else { 0.5 } } else { x };
+            let f = F::try_from(x)?;
+            macro_rules! go { ($t:ty) => { match op { "Prim.truncated" => Ok(f.as_integer_with_truncation::<$t>() as i128), "Prim.integral" => f.as_integer_if_integral::<$t>().map(|y| y as i128),
+                                                      _ => f.as_positive_integer_with_truncation::<$t>().map(|y| y as i128) } } }
+            match js::s(a, "ty") { "u8" => go!(u8), "u32" => go!(u32), "i32" => go!(i32), "i64" => go!(i64), k => panic!("HARNESS: ty {k}") } }, |y| big(*y)),
         "PlainDateTime.fromDateAndTime" => run(|| PlainDateTime::from_date_and_time(arg_date(&a["recv"])?, arg_time(&a["time"])?), p_datetime),
         // the infallible conversion: the value is projected through getters (its Display may panic)
         "PlainDateTime.fromPlainDate" => run(|| Ok(PlainDateTime::from(arg_date(&a["recv"])?)), p_datetime),
